@@ -72,7 +72,7 @@ def run_probe_file(rpath, prop):
     env["CARGO_NET_OFFLINE"] = "true"
     tdir = os.path.join(kani.BUILD, prop, "native_" + group)
     p = subprocess.run(["cargo", "test", "--release", "--offline", "--target-dir", tdir, "--test", tfile, tname, "--", "--exact"],
-                       cwd=os.path.join(VERIF, "harness", group), env=env, stdout=subprocess.PIPE, stderr=subprocess.STDOUT, text=True)
+                       cwd=kani.crate_dir(group), env=env, stdout=subprocess.PIPE, stderr=subprocess.STDOUT, text=True)
     sys.stdout.write("".join(l + "\n" for l in p.stdout.splitlines() if "panicked" in l or "reached" in l or "test result" in l))
     if "test result: FAILED" in p.stdout:
         return True
@@ -93,7 +93,7 @@ def run_replay_file(rpath, prop):
     scratch = os.path.join(kani.BUILD, prop, "replay_" + harness.replace("::", "."))
     shutil.rmtree(scratch, ignore_errors=True)
     os.makedirs(os.path.dirname(scratch), exist_ok=True)
-    shutil.copytree(os.path.join(VERIF, "harness", group), scratch, ignore=shutil.ignore_patterns("target"))
+    shutil.copytree(kani.crate_dir(group), scratch, ignore=shutil.ignore_patterns("target"))
     mod = harness.split("::")[:-1]
     src = os.path.join(scratch, "src", *mod) + ".rs" if mod else os.path.join(scratch, "src", "lib.rs")
     if not os.path.exists(src):
@@ -252,7 +252,7 @@ def main():
         print(l)
     for inc in inconclusive:
         print("INCONCLUSIVE property=%s obligation=%s reason=%s" % (prop, inc["obligation"], inc["reason"]))
-    if not a.only:
+    if not a.only and not os.environ.get("VERIF_NO_EVIDENCE"):
         write_evidence(prop, a.tier, seed, meta, records, wall, len(viol_lines), inconclusive, sorted(set(known_lines)))
     if not a.keep:
         pool.cleanup()
